@@ -1,13 +1,19 @@
 import JadeModel.Proofs.SystemUniqueNode
-import JadeModel.Proofs.SystemUniqueTraceDefs
-import JadeModel.Proofs.SystemUniqueTraceS
 import JadeModel.Proofs.SystemUniqueTraceW
+import JadeModel.Proofs.SystemUniqueTraceSA
+import JadeModel.Proofs.SystemUniqueTraceSB
 
 set_option linter.unusedSimpArgs false
 
 /-! In EVERY execution the nodes write at most one row per job (trace property). -/
 
 namespace Jade.Sys
+
+theorem nodeS_step {s s' : Sys} {op : Op} (hn : NodeInv s) (hw : NodeW s) (hi : NodeS s)
+    (h : step s op = some s') : NodeS s' := by
+  obtain ⟨c_queuedSeen, c_runningSeen⟩ := nodeS_step_a hn hw hi h
+  obtain ⟨c_seenBatch, c_seenNodup⟩ := nodeS_step_b hn hw hi h
+  exact ⟨c_queuedSeen, c_runningSeen, c_seenBatch, c_seenNodup⟩
 
 theorem node_writes_once_run (j : JobId) (ops : List Op) : ∀ (s s' : Sys), NodeInv s → NodeW s → NodeS s →
     run s ops = some s' →
